@@ -130,7 +130,8 @@ pub fn execute_hsrv(plan: &Plan) -> Outcome {
             }
             let opts = match (kind, sweep % 6) {
                 (5, 0) => ServerOpts { stream_type: Some(*g.pick(&[0u8, 2, 0x7f, 0xff])), ..Default::default() },
-                (5, 1) => ServerOpts { ts_offset: *g.pick(&[-100_000i64, -31, 31, 100_000]), ..Default::default() },
+                // (stale, ahead, and the extremes of the 64-bit field: 0, 2^63 - 1, 2^63, 2^64 - 1)
+                (5, 1) => ServerOpts { ts_offset: *g.pick(&[-100_000i64, -31, 31, 100_000, -(unix_now() as i64), i64::MAX - unix_now() as i64, (i64::MAX - unix_now() as i64).wrapping_add(1), -(unix_now() as i64) - 1]), ..Default::default() },
                 (5, 2) => ServerOpts { wrong_request_salt: true, ..Default::default() },
                 (5, 3) => ServerOpts { vmess_wrong_auth: true, ..Default::default() },
                 (5, 4) => ServerOpts { vmess_wrong_keys: true, ..Default::default() },
